@@ -20,7 +20,7 @@ def InSlice (c : Cfg) (k n : Nat) : Prop :=
 
 instance (c : Cfg) (k n : Nat) : Decidable (InSlice c k n) := by unfold InSlice; infer_instance
 
-theorem foldl_add_eq_sum (l : List Nat) (a : Nat) : l.foldl (· + ·) a = a + l.sum := by
+private theorem foldl_add_eq_sum (l : List Nat) (a : Nat) : l.foldl (· + ·) a = a + l.sum := by
   induction l generalizing a with
   | nil => simp
   | cons h t ih => simp only [List.foldl, ih, List.sum_cons]; omega
